@@ -3,6 +3,7 @@ package main
 import (
 	"encoding/json"
 	"fmt"
+	"github.com/woodsbury/jmespath"
 	"os"
 	"os/exec"
 	"runtime"
@@ -123,6 +124,41 @@ func genC09(tier, out string, sum *Summary) {
 		d := map[string]any{"n": json.Number(t), "m": json.Number("3")}
 		for _, e := range []string{"n + m", "n * n", "n / m", "n // m", "n % m", "n < m", "n == n", "abs(n)", "ceil(n)", "floor(n)", "to_string(n)", "sort([n, m])", "sum([n, m, n])", "avg([n, m])", "max([n, m])", "to_number(to_string(n))", "pad_left('x', n)", "s[n:]", "find_first('abc', 'b', n)", "split('a,b', ',', n)", "`" + t + "` + `1`"} {
 			check(e, d)
+		}
+	}
+	// the exponent of a number is a magnitude like any other: a handful of bytes of number text, whatever they
+	// say, cost a handful of bytes of work (limits: 50 ms, 1 MiB)
+	for _, t := range []string{"1e999999", "-1e999999", "2.5e-999999", "1e1000000", "1e-1000000", "1e99999999", "1e-99999999", "1e2147483647", "1e-2147483648", "1e9223372036854775807", "1e18446744073709551616", "0e999999999", "1E+999999", "123e-999999"} {
+		d := map[string]any{"n": json.Number(t), "m": json.Number("3"), "xs": []any{json.Number(t), json.Number("-" + strings.TrimPrefix(t, "-")), json.Number("1")}, "s": t}
+		for _, e := range []string{"n + m", "n * n", "n / m", "m / n", "n // m", "n % m", "n < m", "n == n", "n == m", "abs(n)", "ceil(n)", "floor(n)", "- n", "to_string(n)", "sort([n, m])", "sum(xs)", "avg(xs)", "sum(xs[:2])", "max(xs)", "min([n, m])", "to_number(s)", "to_number(to_string(n))",
+			"find_first('abc', 'b', n)", "split('a,b', ',', n)", "replace('aa', 'a', 'b', n)", "pad_left('x', n)", "contains(xs, n)", "sort_by([{k: n}, {k: m}], &k)", "max_by([{k: n}], &k)", "type(n)", "!n", "[n][?@ > `1`]", "group_by([{k: n}], &to_string(k))"} {
+			id++
+			o, el, alloc := measured(sum, e, d, limit, out)
+			sum.count("exponents/" + o.Kind)
+			if el > 50*time.Millisecond || alloc > 1<<20 {
+				sum.direct("magnitude", e, d, fmt.Sprintf("took %v and allocated %d bytes for a number written in %d bytes (%s)", el, alloc, len(t), describe(o)))
+			}
+			if o.Kind == "panic" {
+				sum.direct("panic", e, d, o.Msg)
+			}
+			distinct[e] = true
+		}
+		if !strings.ContainsAny(t, "-+") || true {
+			id++
+			e := "`" + t + "` + `1`"
+			o, el, alloc := measured(sum, e, nil, limit, out)
+			if el > 50*time.Millisecond || alloc > 1<<20 {
+				sum.direct("magnitude", e, nil, fmt.Sprintf("took %v and allocated %d bytes (%s)", el, alloc, describe(o)))
+			}
+		}
+	}
+	// a value in the data that answers its own serialisation by searching again (with the package-level Search):
+	// the outer call still returns
+	{
+		inner := map[string]any{"name": "x"}
+		var none *jmespath.Expression
+		for _, e := range []string{"to_string(record)", "to_string(@)", "[to_string(record), name]", "map(&to_string(@), [record, record])", "record | to_string(@)"} {
+			check(e, map[string]any{"record": reent{&none, "{name: name}", inner}, "name": "outer"})
 		}
 	}
 	// deeply nested data (48 levels, a handful of nodes): whatever walks a value must walk it once, not once per
